@@ -1,7 +1,7 @@
 (** Statement pins for C06: the headline theorems must have exactly these
     types, so they cannot be weakened silently. *)
 From RsM Require Import Lib.MachInt Model.Acl Model.AclSpec Model.Im Model.ImSpec.
-From RsM Require Import Proofs.ImExpand Proofs.ImRun Proofs.ImSound Proofs.ImTheorems Proofs.ImResume Props.C06.
+From RsM Require Import Proofs.ImExpand Proofs.ImRun Proofs.ImSound Proofs.ImTheorems Proofs.ImResume Proofs.ImChunked Props.C06.
 Open Scope N_scope.
 
 Check (C06_request_exact :
@@ -101,3 +101,23 @@ Check (C06_resume_stable :
   /\ NoDup ys
   /\ (forall t, (forall nd, In nd nodes -> In t (served nd fabs who op timed flt path)) ->
                 In (cand_ids t) ys)).
+Check (C06_chunked_exact :
+  forall (fuel max_paths : nat) (who : accessor) (nd : node) (fabs : list fabric)
+         (win : option N) (ff : bool) (chunks : list wchunk),
+  wf_node nd = true -> wf_fabrics fabs = true ->
+  (forall ch, In ch chunks -> (length (spec_outs nd fabs who (chunk_req win ff ch)) < fuel)%nat) ->
+  write_chunked fuel max_paths who (mkCfg nd fabs) [] win ff chunks
+  = spec_write_chunked max_paths who nd fabs win ff chunks).
+Check (C06_chunked_timed_window :
+  forall (fuel max_paths : nat) (who : accessor) (c0 : config) (sw : list (nat * config))
+         (win : option N) (ff : bool) (chunks : list wchunk) (i : nat) (ch : wchunk)
+         (outs : list out) (log : list hcall),
+  nth_error chunks i = Some ch ->
+  nth_error (write_chunked fuel max_paths who c0 sw win ff chunks) i = Some (RespItems outs log) ->
+  ch_flag ch = is_some win /\ (ch_flag ch = true -> window_open win (ch_elapsed ch) = true)).
+Check (C06_chunked_monitor_sound :
+  forall (max_paths : nat) (who : accessor) (nd : node) (fabs : list fabric)
+         (win : option N) (ff : bool) (chunks : list wchunk) (resps : list imresp),
+  wf_node nd = true -> wf_fabrics fabs = true ->
+  holds_chunked max_paths who (mkCfg nd fabs) [] win ff chunks resps = true ->
+  resps = spec_write_chunked max_paths who nd fabs win ff chunks).
